@@ -35,7 +35,7 @@ fn c13_forward(p: u8) {
     let mut s1 = ctx1(p);
     let b1 = t | if brk { 0x80 } else { 0 };
     let e1 = s1.advance_state(b1);
-    println!("C13 forward prefix={} break={} set2 code={:#04x} -> {:?}; translated set1 byte={:#04x} -> {:?}", p, brk, c, e2, b1, e1);
+    crate::show!("C13 forward prefix={} break={} set2 code={:#04x} -> {:?}; translated set1 byte={:#04x} -> {:?}", p, brk, c, e2, b1, e1);
     if is_key_event(&e2) {
         assert!(e1 == e2, "C13: Set 2 sequence and its i8042 translation decode to different events");
     }
@@ -62,7 +62,7 @@ fn c13_backward(p: u8) {
         }
         i += 1;
     }
-    println!("C13 backward prefix={} break={} set1 byte={:#04x} -> {:?}; set2 preimages={:?} matched={}", p, brk, b1, e1, pre, matched);
+    crate::show!("C13 backward prefix={} break={} set1 byte={:#04x} -> {:?}; set2 preimages={:?} matched={}", p, brk, b1, e1, pre, matched);
     if is_key_event(&e1) {
         assert!(matched, "C13: Set 1 sequence decodes to an event that no Set 2 preimage under the i8042 translation gives");
     }
@@ -109,7 +109,7 @@ pub fn c13_t_composed() {
             if let Ok(Some(ev1)) = e1 {
                 let d2 = k2.process_keyevent(ev2);
                 let d1 = k1.process_keyevent(ev1);
-                println!("C13 composed prefix={} code={:#04x} break={} decoded {:?} / {:?}", p, c, brk, d2, d1);
+                crate::show!("C13 composed prefix={} code={:#04x} break={} decoded {:?} / {:?}", p, c, brk, d2, d1);
                 assert!(d1 == d2, "C13: composed - different decoded keys");
                 assert!(k1.get_modifiers() == k2.get_modifiers(), "C13: composed - different modifiers");
             }
